@@ -5,6 +5,7 @@
  *                       bfg9000 makes at configure time; an invocation with
  *                       -c or -o is logged, creates the -o output and writes
  *                       the -MF depfile (gcc escaping) listing the inputs.
+ *   lex               : flex-like stub: creates the -o output.
  *   yacc              : bison-like stub: creates the -o and --defines= outputs.
  *   ar                : archiver stub: "ar <flags> out in..." creates out.
  *   cp, ln            : log, then exec the real tool.
@@ -137,6 +138,18 @@ int main(int argc, char **argv) {
     if (!strcmp(tool, "cc") || !strcmp(tool, "c++") || !strcmp(tool, "gcc") || !strcmp(tool, "g++"))
         return compiler(tool, argc, argv);
     if (!strcmp(tool, "ar")) return archiver(argc, argv);
+    if (!strcmp(tool, "lex")) {
+        /* flex-like stub: "lex [flags] -o out in" writes an empty scanner */
+        if (argc >= 2 && !strcmp(argv[1], "--version")) { printf("flex 2.6.4\n"); return 0; }
+        log_invocation(tool, argc, argv);
+        for (int i = 1; i < argc; i++)
+            if (!strcmp(argv[i], "-o") && i + 1 < argc) {
+                FILE *f = fopen(argv[++i], "w");   /* a valid (empty) C file */
+                if (!f) { fprintf(stderr, "stub: cannot create %s\n", argv[i]); return 1; }
+                fputs("/* scanner */\n", f); fclose(f);
+            }
+        return 0;
+    }
     if (!strcmp(tool, "yacc")) {
         /* bison-like stub: "yacc [flags] in -o out [--defines=hdr]" */
         if (argc >= 2 && !strcmp(argv[1], "--version")) { printf("bison (GNU Bison) 3.8.2\n"); return 0; }
